@@ -20,7 +20,7 @@ import ast
 
 from ..astutil import (text, access_path, calls_in, func_params, stmts_of, is_const, const_value, store_targets, method_call)
 from ..jobmodel import JobModel
-from ..astutil import enclosing_loops
+from ..astutil import enclosing_loops, oriented
 from ..loader import where, AnalysisError
 from ..paths import Enumerator
 from ..terms import Terms, PathEnv, fuse, alpha, canonical, self_effects_of
@@ -37,10 +37,10 @@ def r1_r2(ctx, jm):
         gi = -1
         gval = None
         for i, e in enumerate(p.events):
-            if e.kind == "guard" and isinstance(e.node, ast.Compare) and len(e.node.ops) == 1 \
-                    and text(e.node.left) == ind + ".state" and text(e.node.comparators[0]).endswith(".EVALUATED"):
+            o_ = oriented(e.node, lambda n_: text(n_) == ind + ".state") if e.kind == "guard" else None
+            if o_ is not None and text(o_[2]).endswith(".EVALUATED") and o_[1] in (ast.Eq, ast.Is, ast.NotEq, ast.IsNot):
                 gi = i
-                gval = e.val if isinstance(e.node.ops[0], (ast.Eq, ast.Is)) else not e.val
+                gval = e.val if o_[1] in (ast.Eq, ast.Is) else not e.val
                 break
         if first_obj >= 0:
             if gi < 0 or gi > first_obj:
@@ -180,11 +180,12 @@ def r1_r2(ctx, jm):
             for st in stmts_of(fn):
                 if isinstance(st, ast.Assign) and len(st.targets) == 1 and isinstance(st.targets[0], ast.Name) and is_const(st.value):
                     consts[st.targets[0].id] = const_value(st.value)
-            if isinstance(cmp_, ast.Compare) and len(cmp_.ops) == 1:
-                lv = g.generators[0].target
-                l, r = cmp_.left, cmp_.comparators[0]
+            lv = g.generators[0].target
+            o_ = oriented(cmp_, lambda n_: access_path(n_) == access_path(lv))
+            if o_ is not None:
+                l, r = o_[0], o_[2]
                 rv = const_value(r) if is_const(r) else consts.get(access_path(r) or "")
-                is_lt = isinstance(cmp_.ops[0], ast.Lt) and access_path(l) == access_path(lv) and rv == 0
+                is_lt = o_[1] is ast.Lt and rv == 0
                 if access_path(v.func) != "all":
                     okf = (s, "feasible is `any(...)`: one satisfied constraint makes the design feasible")
                 elif not is_lt:
@@ -363,9 +364,10 @@ def r5_bridges(ctx, repo):
             elif e.kind == "exit" and in_it:
                 close()
                 in_it = False
-            elif e.kind == "guard" and in_it and isinstance(e.node, ast.Compare) and text(e.node.left).endswith(".state") \
-                    and text(e.node.comparators[0]).endswith(".EMPTY") and isinstance(e.node.ops[0], (ast.Eq, ast.NotEq)):
-                cur_empty = e.val if isinstance(e.node.ops[0], ast.Eq) else not e.val
+            elif e.kind == "guard" and in_it and oriented(e.node, lambda n_: text(n_).endswith(".state")) is not None \
+                    and text(oriented(e.node, lambda n_: text(n_).endswith(".state"))[2]).endswith(".EMPTY") \
+                    and oriented(e.node, lambda n_: text(n_).endswith(".state"))[1] in (ast.Eq, ast.NotEq):
+                cur_empty = e.val if oriented(e.node, lambda n_: text(n_).endswith(".state"))[1] is ast.Eq else not e.val
             elif e.kind in ("stmt", "return"):
                 lv = None
                 for c in calls_in(e.node):
